@@ -280,6 +280,20 @@ def c20_job(job):
         from harness.rec import Recorder
         from nasim.envs import NASimEnv
         sp = family_spec(*job["family"])
+        # decoy built and queried first in this process: same subnet sizes and sensitive hosts, but a path on
+        # which the sensitive subnets come last (the longest route) - a process-global cache of the advertised
+        # numbers that ignores the wiring would leak into the scenario under test
+        name_, n_, edges_, sens_, per_, dr_ = job["family"]
+        order_ = [x for x in range(1, n_) if x not in sens_] + list(sens_)
+        dec = family_spec(name_, n_, [(0, order_[0])] + list(zip(order_, order_[1:])), sens_, per_, dr_)
+        try:
+            denv = NASimEnv(corpus.build_dict_scenario(dec), fully_obs=True, flat_actions=True, flat_obs=True)
+            denv.get_minimum_hops()
+            denv.get_score_upper_bound()
+            denv.step(0)
+            del denv
+        except Exception:
+            pass
         scn = corpus.build_dict_scenario(sp)
         cs = corpus.cs_of(sp)
         env0 = NASimEnv(scn, fully_obs=True, flat_actions=True, flat_obs=True)
@@ -313,6 +327,32 @@ def c20_job(job):
             rec.emit(dict(ev="episode_end", env=eid, term=bool(ev and ev.get("ev") == "step" and ev["term"]),
                           total=int(total), ub=milli(e.get_score_upper_bound()), hops=int(e.get_minimum_hops()),
                           fwfree=True, spec_total=sc, spec_ncomp=nc))
+        # code => spec: seeded random goal-seeking episodes of the real environment (any action, any order,
+        # repeated actions included), each closed by an episode_end event
+        import random as _r
+        rng = _r.Random(job.get("seed", 0))
+        n_act = pyref.n_actions(cs)
+        rec.create(3, scn, False, True, True)
+        episodes = 0
+        for ep in range(job.get("episodes", 25)):
+            rec.reset(3)
+            total, ev = 0, None
+            for t_ in range(70):
+                k = rng.randrange(n_act) + 1
+                a = pyref.flat_action(cs, k)
+                ev = rec.step(3, ("int", k - 1), pyref.draw_for(a["prob"], True, 0))
+                if ev.get("ev") != "step":
+                    break
+                total += ev["reward"]
+                if ev["term"]:
+                    break
+            if ev is not None and ev.get("ev") == "step" and ev["term"]:
+                episodes += 1
+                e = rec.envs[3]
+                rec.emit(dict(ev="episode_end", env=3, term=True, total=int(total),
+                              ub=milli(e.get_score_upper_bound()), hops=int(e.get_minimum_hops()), fwfree=True,
+                              spec_total=0, spec_ncomp=0))
+        res["random_goal_episodes"] = episodes
         rec.close()
         res["events"] = rec.i
         mon = os.path.join(wd, "mon")
@@ -320,10 +360,16 @@ def c20_job(job):
         m = tlc.run_monitor(render_scenario_tla(cs), trace, workdir=mon)
         res["fails"] = [f for f in m.fails() if f[0] != "DRIFT"]
         res["drift"] = sorted(set(f[1] for f in m.fails() if f[0] == "DRIFT"))
+        # the largest total / smallest host count actually seen on the real environment
+        for line in open(trace):
+            if '"episode_end"' in line:
+                ee = json.loads(line)
+                if ee["term"]:
+                    res["max_score"] = max(res["max_score"], ee["total"])
         if any(f[0] == "C20" for f in res["fails"]):
             kwd = os.path.join(wd, "kf")
             os.makedirs(kwd)
-            sig, pw = kf_permwalk(cs, fewest[0], best[1], kwd)
+            sig, pw = kf_permwalk(cs, fewest[0], res["max_score"], kwd)
             res["kf_permwalk"] = sig
             res["permwalk"] = pw
             os.makedirs(common.REPLAY_DIR, exist_ok=True)
